@@ -13,6 +13,7 @@ CONSTANTS
   Weights <- Blend
   Surs = {0, 1}
   CUs <- BaseCU
+  Rts <- NoRt
   NoDst = FALSE
   OkSubsets = FALSE
   NeedConsistent = FALSE
